@@ -43,9 +43,9 @@ def strategy(tier):
 def fixed_cases(tier):
     base = [["func", "SmoothStronglyConvexFunction", {"mu": 0.1, "L": 1}, None, False], ["init_point", None],
             ["stat", 0, None], ["gd", 0, 0, 1.0], ["oracle", 0, 3], ["expr", "sqdist", 0, 1],
-            ["cons", "init", 2, "<=", 1, None], ["expr", "sqdist", 3, 1], ["metric", 3, None]]
-    nonsym = base + [["new_expr"], ["new_expr"], ["lmi", "pep", [[["e", 3], ["e", 4]], [["e", 5], ["n", 1]]], False, None],
-                     ["metric", 4, None]]
+            ["cons", "init", 3, "<=", 1, None], ["expr", "sqdist", 3, 1], ["metric", 4, None]]
+    nonsym = base + [["new_expr"], ["new_expr"], ["lmi", "pep", [[["e", 4], ["e", 5]], [["e", 6], ["n", 1]]], False, None],
+                     ["metric", 5, None]]
     return [{"instrs": base, "opts": {"wrapper": "cvxpy", "solver": "CLARABEL", "verbose": 0, "ret": "dual"},
              "tags": [], "cls": "SmoothStronglyConvexFunction"},
             {"instrs": nonsym, "opts": {"wrapper": "cvxpy", "solver": "CLARABEL", "verbose": 0, "ret": "dual"},
@@ -67,8 +67,8 @@ def check_case(case, ctx):
     ob = oracles.solve_observed(env, opts)
     sc = oracles.solver_class(opts)
     ctx.label("solver:" + sc)
-    if ob.exc is not None:
-        raise ob.exc
+    if oracles.solver_gave_up(ob, ctx):
+        return
     if ob.result is None:
         ctx.label("solve:none")
         return
